@@ -81,7 +81,9 @@ ClearedLinkAt(l, r, h, S) ==
      \* child sum, W-component: l/h + r/h - 1 = (P_ChildSum - Q_ChildSum) / h
      /\ RMul(RSub(RAdd(F.Wl[1], F.Wr[1]), ROne), RInt(h)) = RInt(P_ChildSum(l, r, h, S) - Q_ChildSum(l, r, h, S))
 \* all (l, r, h, S) on a grid of side LinkK; both sides are generally non-zero there
-ClearedLink(K) == \A l \in 1..K : \A r \in 1..K : \A h \in 1..K : \A S \in 1..K : ClearedLinkAt(l, r, h, S)
+\* (the identities have degree <= 7 in l and r, <= 5 in h and <= 2 in S after clearing denominators: a grid of
+\* 8 x 8 x 6 x 3 points forces them; TLC's 32-bit rationals bound the side)
+ClearedLink(K) == \A l \in 1..(K + 3) : \A r \in 1..(K + 3) : \A h \in 1..(K + 1) : \A S \in 1..(K - 2) : ClearedLinkAt(l, r, h, S)
 \* a wrong polynomial must break the link (non-vacuity)
 ClearedLinkNotVacuous ==
   LET F == FormsG(1, 2, 4, 5)
